@@ -115,12 +115,15 @@ impl BufferTransformT for FlateDecode<'_> {
     }
 }
 
-// the paeth prediction algorithm
+// the paeth prediction algorithm (PNG specification, 9.4): the
+// prediction is computed on the integer values of the bytes, without
+// wrapping.
 fn paeth(a: Wrapping<u8>, b: Wrapping<u8>, c: Wrapping<u8>) -> Wrapping<u8> {
-    let p = a + b - c;
-    let pa = if p > a { p - a } else { a - p };
-    let pb = if p > b { p - b } else { b - p };
-    let pc = if p > c { p - c } else { c - p };
+    let (ia, ib, ic) = (i16::from(a.0), i16::from(b.0), i16::from(c.0));
+    let p = ia + ib - ic;
+    let pa = (p - ia).abs();
+    let pb = (p - ib).abs();
+    let pc = (p - ic).abs();
 
     // algorithm
     if pa <= pb && pa <= pc {
@@ -380,7 +383,7 @@ fn flate_lzw_filter(
                             a = row_data[j - bytes_per_pixel];
                             c = prev_row[j - bytes_per_pixel];
                         }
-                        row_data[j] = paeth(a, b, c);
+                        row_data[j] += paeth(a, b, c);
                     }
                 },
                 _ => {
